@@ -16,12 +16,29 @@ sparse branch separately) and the two status enums; PiqpProofs/Properties/C16.le
 The obligation list, the failing-input search and the Lean/Python consistency guards are shared with C17
 (vlib/props/c17.py: `c_wiring`, `static_tables_check`).
 
-dynamic half: to be added in `dynamic_part` (bitwise C-vs-C++ differential runs).
+dynamic half (`dynamic_part`): the same call history (setup; solve; update(subset); settings changes; solve; …) is run
+through the C interface and through the C++ class it wraps, from the same caller arrays (harness/halias.cpp:
+api 4 = piqp_setup_dense/piqp_update_dense vs api 1 = DenseSolver on the same row-major arrays; api 5 = piqp_*_sparse vs
+api 3 = SparseSolver<KKT_FULL> on the same CSC arrays); after every solve the status, all 13 result vectors and all
+non-timing info fields must be bit-for-bit equal.  P is stored full, upper-only or upper+garbage; A and G are non-square;
+every optional block is present or absent (NULL); settings are changed before setup (struct passed to piqp_setup_*) and
+between solves (piqp_update_settings), every field at a non-default value; caller arrays are checksummed around each call.
 """
 import json
+import os
+import random
 
-from vlib.common import Check
-from vlib.props import c17
+from vlib import common
+from vlib.common import Check, HARNESS, build_cpp
+from vlib.props import c17, c19
+
+ALL_FIELDS = [("rho_init", 1e-5), ("delta_init", 1e-3), ("eps_abs", 1e-7), ("eps_rel", 1e-8), ("check_duality_gap", 1),
+              ("eps_duality_gap_abs", 1e-6), ("eps_duality_gap_rel", 1e-7), ("reg_lower_limit", 1e-9), ("reg_finetune_lower_limit", 1e-12),
+              ("reg_finetune_primal_update_threshold", 6), ("reg_finetune_dual_update_threshold", 4), ("max_iter", 120),
+              ("max_factor_retires", 8), ("preconditioner_scale_cost", 1), ("preconditioner_iter", 6), ("tau", 0.98),
+              ("iterative_refinement_always_enabled", 1), ("iterative_refinement_eps_abs", 1e-11), ("iterative_refinement_eps_rel", 1e-11),
+              ("iterative_refinement_max_iter", 7), ("iterative_refinement_min_improvement_rate", 2.5),
+              ("iterative_refinement_static_regularization_eps", 1e-6), ("iterative_refinement_static_regularization_rel", 1e-30)]
 
 
 def static_part(chk):
@@ -45,10 +62,90 @@ def static_part(chk):
     return ok
 
 
+def gen_pair(rng, capi, idx):
+    """one history, twice: through the C interface (api 4 / 5) and through the C++ class it wraps (api 1 / 3:KKT_FULL)"""
+    n = rng.choice([1, 2, 3, 4, 5, 6, 8, 12])
+    p = rng.choice([0, 1, max(1, n // 2)])
+    m = rng.choice([0, 1, n + 1, max(1, n // 2)])
+    pr = c19.Prob(rng, n, min(p, n), m, capi == 5)
+    st = rng.choice(c19.SETTING_VARIANTS + [ALL_FIELDS, [("check_duality_gap", 1), ("eps_abs", 1e-3), ("eps_rel", 1e-3),
+                                                          ("eps_duality_gap_abs", 1e-9), ("eps_duality_gap_rel", 0.0)]])
+    case = c19.new_case(f"cvs_{capi}_{idx}", capi, 0, st, {"kind": "c-vs-cpp", "n": n, "p": pr.p, "m": pr.m})
+    c19.op_setup(case, pr, rng)
+    c19.op_solve(case)
+    al = c19.allowed(pr)
+    for _ in range(rng.randint(1, 4)):
+        r = rng.random()
+        names = list(al) if r < 0.2 else [rng.choice(al)] if r < 0.5 else [a for a in al if rng.random() < 0.4]
+        if names:
+            c19.op_update(case, pr, names, 1)
+        if rng.random() < 0.5:
+            # a settings change between solves: piqp_update_settings on the C side, settings() on the C++ side
+            for k, v in rng.sample(ALL_FIELDS, rng.randint(1, 5)):
+                if k not in ("preconditioner_iter", "preconditioner_scale_cost"):
+                    case["lines"].append(f"set {k} {c19.fnum(v * rng.choice([1, 1, 2]) if isinstance(v, float) else v)}")
+        c19.op_solve(case)
+    twin = dict(case, name=case["name"] + "_cpp", api={4: 1, 5: 3}[capi], kkt=0,
+                lines=[f"api { {4: 1, 5: 3}[capi] } 0"] + case["lines"][1:], meta=dict(case["meta"], api=c19.cfg_name({4: 1, 5: 3}[capi], 0)))
+    return case, twin
+
+
 def dynamic_part(chk):
-    """Placeholder for the differential half (hcapi harness); nothing is claimed for it yet."""
-    chk.notes.append("dynamic half (C-vs-C++ differential) not part of this run")
-    return True
+    """bitwise differential runs: C interface vs the C++ class it wraps"""
+    rng = random.Random(chk.seed * 7907 + 16)
+    src = [os.path.join(HARNESS, "halias.cpp"), os.path.join(common.REPO, "interfaces", "c", "src", "piqp.cpp")]
+    inc = ["-I", os.path.join(common.REPO, "interfaces", "c", "include")]
+    okb, exe, log = build_cpp("halias", src, flags=["-O1"] + inc)
+    if not okb:
+        chk.violation("build:halias", "harness halias (+ interfaces/c/src/piqp.cpp) does not compile against the current /repo tree:\n"
+                      + log[-4000:], True)
+        return False
+    npair = 400 if chk.thorough() else 60
+    pairs = [gen_pair(rng, capi, k) for capi in (4, 5) for k in range(npair)]
+    items = [(c, "A") for pr in pairs for c in pr]
+    outs, crashes = c19.run_all(exe, items)
+    ncmp = nsolves = nbad = 0
+    statuses = {}
+    ok = True
+    for cc, tw in pairs:
+        a, b = outs.get(cc["name"] + "#A"), outs.get(tw["name"] + "#A")
+        if cc["name"] + "#A" in crashes or tw["name"] + "#A" in crashes or a is None or b is None:
+            nbad += 1
+            ok = False
+            if nbad <= 2:
+                chk.violation(f"impl:c-vs-cpp:crash:api{cc['api']}", "harness run lost (crash/timeout) in the C-vs-C++ differential:\n"
+                              + repr(crashes.get(cc["name"] + "#A") or crashes.get(tw["name"] + "#A"))[:2000] + "\n\ninput:\n" + c19.case_text(cc, "A"))
+            continue
+        ncmp += 1
+        la = [l for l in a if not l.startswith("case")]
+        lb = [l for l in b if not l.startswith("case")]
+        for l in la:
+            if l.startswith("status"):
+                nsolves += 1
+                statuses[l.split()[1]] = statuses.get(l.split()[1], 0) + 1
+        err = [l for l in la if l.startswith("error") or l.startswith("modified")]
+        diff = next((i for i in range(max(len(la), len(lb))) if i >= len(la) or i >= len(lb) or la[i] != lb[i]), None)
+        if diff is not None or err:
+            nbad += 1
+            ok = False
+            if nbad <= 4:
+                what = (f"first differing output line {diff}:\n  C   : {la[diff] if diff < len(la) else '<missing>'}\n  C++ : {lb[diff] if diff < len(lb) else '<missing>'}"
+                        if diff is not None else "C interface reported: " + err[0])
+                field = (la[diff].split()[0] if diff is not None and diff < len(la) else "err")
+                chk.violation(f"impl:c-vs-cpp:api{cc['api']}:{field}",
+                              "the C interface and the C++ solver it wraps disagree bit-for-bit on the same call history and caller arrays\n"
+                              + what + f"\nsettings {cc['meta']['settings']}\n\ninput (C side; the twin replaces the first line by 'api {tw['api']} 0'):\n"
+                              + c19.case_text(cc, "A"))
+    chk.cov["c_vs_cpp_pairs_compared"] = ncmp
+    chk.cov["c_vs_cpp_solves_compared"] = nsolves
+    chk.cov["c_vs_cpp_status_distribution"] = statuses
+    chk.cov["evaluations"] = chk.cov.get("evaluations", 0) + 2 * len(pairs)
+    chk.cov["c_vs_cpp_rule"] = ("same history through piqp_* (dense row-major / sparse CSC, optional blocks NULL, settings by struct and by "
+                                "piqp_update_settings, every field non-default in some cases, P full / upper-only / upper+garbage) and through "
+                                "DenseSolver / SparseSolver<KKT_FULL>; status, 13 result vectors and all non-timing info fields compared bitwise "
+                                "after every solve; caller arrays checksummed around every call")
+    chk.assumptions.append("dynamic half: differential testing on generated histories (n<=12), labelled as testing; the wiring theorems are the proof part")
+    return ok
 
 
 def run(replay=None):
